@@ -8,8 +8,6 @@ import (
 	"strconv"
 	"strings"
 
-	"github.com/pkg/errors"
-
 	"github.com/xelaj/mtproto/internal/mtproto/objects"
 )
 
@@ -83,9 +81,12 @@ func TryExpandError(errStr string) (nativeErrorName string, additionalData any) 
 
 	switch v := choosedPrefixSuffix.kind; v { //nolint:exhaustive others will panic
 	case reflect.Int:
-		var err error
-		additionalData, err = strconv.Atoi(trimmedData)
-		check(errors.Wrap(err, "error of parsing expected int value"))
+		value, err := strconv.Atoi(trimmedData)
+		if err != nil {
+			// parameter is absent, not a number or doesn't fit in int: it's not this specific error
+			return errStr, nil
+		}
+		additionalData = value
 
 	case reflect.String:
 		additionalData = trimmedData
